@@ -84,6 +84,15 @@ CLAIMED["C10"] = dict(cat="proof", ref="DESIGN.md §5 C10, §12",
    note="logical-type annotations excluded from this theorem (C16); 'everything validate accepts is encoded and round-trips' is checked on the implementation and "
         "follows for the model from C01/C02 where the normal form is defined; model==implementation observed by correspondence",
    tech="Lean 4 proof (validate = conforms; raise-mode lifting) + Spec.conforms oracle against the implementation")
+CLAIMED["C09"] = dict(cat="proof", ref="DESIGN.md §5 C09, §12",
+   text="Lean theorems c09_choose_eq_spec (write_union's scan with its record-accumulation / could_be_float / break structure = the documented rule "
+        "Spec.choose: first conforming non-record branch, float defers to a later double, else the conforming record sharing most field names, first on "
+        "ties; error when nothing conforms; hints select the first branch of that name) and c09_hint (exact selection / ValueError). Determinism is by "
+        "construction (pure function; hidden state is C17). Implementation: bytes compared with Spec.encode under the documented rule at any nesting depth, "
+        "all reader options against the model, closure (read with return_named_type, write back, identical bytes), unknown hints.",
+   note="the closure clause is checked on the implementation and tied to the model by correspondence, not proved (partial for that clause); theorem guard: plain "
+        "schemas (no logical types) and no exception while validating branches; model==implementation observed by correspondence",
+   tech="Lean 4 proof (scan = declarative rule, via validate = conforms) + rule-based spec encoder against the implementation's bytes")
 PENDING = {}
 
 def main():
